@@ -170,6 +170,12 @@ def impl_oracle(c):
         return ("crash", "HelloInfo/Read crashed: %s" % o["crash"][:200])
     if o.get("pulled", 0) > 5 + 65535:
         return ("unbounded-read", "HelloInfo pulled %d bytes from the connection" % o["pulled"])
+    if o.get("deadline_armed"):
+        segs_n = sum(p[1] for p in c.get("sched") or [])
+        return ("deadline-left-armed", "when HelloInfo returned (%s) the underlying connection still had a read deadline set "
+                "(%d SetReadDeadline/SetDeadline call(s), the last one not the zero time): every later Read of the proxied "
+                "stream fails once it passes [%s; %d bytes, %d scheduled segments, first segment sizes %s]"
+                % (o.get("kind"), o.get("deadline_sets", 0), c.get("desc", ""), c["len"], segs_n, (c.get("sched") or [])[:3]))
     where = "handover:" if c["stream"] == "handover" else ""
     note = (" [" + c.get("desc", "") + "; chunks returned: %s]" % (o.get("chunks") or [])[:12]) if where else ""
     if not o.get("readback_ok"):
